@@ -67,13 +67,23 @@ def has_start(start):
 
 def replay(tapes, prop, tier, wd, tag, extra_props=()):
     out = os.path.join(wd, "findings-%s.ndjson" % tag)
-    args = ["gram", "-in", tapes, "-out", out, "-props", ",".join((prop,) + tuple(extra_props)), "-profiles", (2 if prop == "C05" and tier == "quick" else PROFILES[tier]) if prop in ("C16", "C06", "C05") else 1]
+    args = ["gram", "-in", tapes, "-out", out, "-props", ",".join((prop,) + tuple(extra_props)), "-profiles", (2 if prop == "C05" and tier == "quick" else PROFILES[tier]) if prop in ("C16", "C06", "C05") else (2 if prop == "C08" else 1)]
     obs = None
     if prop == "C05":
         obs = os.path.join(wd, "obs-%s.0.ndjson" % tag)
         args += ["-obs", obs]
+    if prop == "C17":
+        obs = os.path.join(wd, "walk-%s.0.ndjson" % tag)
+        args += ["-walk", obs, "-seed", common.seed()]
+    obs2 = None
+    if prop == "C19":
+        obs = os.path.join(wd, "posl-%s.0.ndjson" % tag)
+        obs2 = os.path.join(wd, "walkb-%s.0.ndjson" % tag)
+        args += ["-posl", obs, "-astfile", os.path.join(common.REPO, "ast", "ast.go"), "-walk", obs2]
     stats = harness_json(args, timeout=7200)
     findings = [json.loads(l) for l in open(out)] if os.path.exists(out) else []
+    if obs2:
+        return stats, findings, (obs, obs2)
     return stats, findings, obs
 
 
@@ -111,16 +121,21 @@ def run(prop, tier):
                 model_dev += 1
                 if len(chk.notes.setdefault("model_deviation_samples", [])) < 5:
                     chk.notes["model_deviation_samples"].append({"text": f["text"], "detail": f["detail"][:200]})
-        if obs and os.path.exists(obs):
-            pre = obs[:-len(".0.ndjson")]
-            cnt, rejects, states, trans = split_and_validate("ObserveTrace", pre, wd, tag)
+        obs_list = [(obs, OBS_MODULE.get(prop), prop)] if isinstance(obs, str) else ([(obs[0], "PosLangTrace", "C19"), (obs[1], "WalkTrace", "C17")] if obs else [])
+        for (ofile, module, as_prop) in obs_list:
+            if not ofile or not os.path.exists(ofile):
+                continue
+            pre = ofile[:-len(".0.ndjson")]
+            cnt, rejects, states, trans = split_and_validate(module, pre, wd, tag)
             chk.cov["states"] += states
             chk.cov["transitions"] += trans
             chk.cov["traces_validated_against_impl"] += cnt
             for (k, line, tagp) in rejects:
                 rec = common.read_record(pre + ".part", k, line)
-                all_findings.append((None, {"prop": "C05", "kind": "unsound-" + tagp, "start": "", "profile": "", "text": common.latin(rec["buf"]),
-                                            "detail": "nodes %s" % rec["nodes"][:6], "line": 0, "obs": rec}))
+                f = obs_finding(as_prop, tagp, rec)
+                f["prop"] = prop
+                f["module"] = module
+                all_findings.append((None, f))
         # a sample
         with open(tapes) as fh:
             first = fh.readline()
@@ -130,7 +145,16 @@ def run(prop, tier):
                 chk.sample({"start": t["start"], "sentence": " ".join(e["s"] for e in t["tape"] if e.get("i") == "T" and e.get("surf"))})
             except Exception:
                 pass
-    if prop != "C05":
+    if prop == "C17":
+        r = tlc_must_pass("Walk", "CONSTANTS MaxNodes = %d\nSPECIFICATION Spec\nINVARIANTS AlgorithmIsDefinition OutIsPrefix EachOnce\nCHECK_DEADLOCK FALSE\n" % (4 if tier == "quick" else 5),
+                          os.path.join(wd, "walk-design"), workers=8, heap="8g", timeout=3000)
+        chk.add_states(r)
+        chk.notes["walk_design_states"] = r.distinct
+    if prop == "C19":
+        for target in generated_sources(chk, wd):
+            chk.violation({"input": "ast/" + target, "kind": "C19-generated-stale", "detail": "ast/%s differs from the output of the repository's generator" % target,
+                           "replay": {"family": "grammar", "property": "C19", "generated": target}})
+    if prop not in OBS_MODULE:
         chk.cov["traces_validated_against_impl"] = total
     chk.cov["distinct_nontrivial"] = max(2, total)
     chk.cov["exhaustive"] = True
@@ -148,6 +172,38 @@ def run(prop, tier):
                        "token comparison classes as in DESIGN.md 2.5; '>>' and '<>' are compared as their two halves",
                        "the real lexer used to read SQL() back is itself validated against LexerCore.tla (C14)"]
     return chk.finish()
+
+
+OBS_MODULE = {"C05": "ObserveTrace", "C17": "WalkTrace", "C19": "PosLangTrace"}
+
+
+def obs_finding(prop, tagp, rec):
+    if prop == "C05":
+        return {"prop": "C05", "kind": "unsound-" + tagp, "start": "", "profile": "", "text": common.latin(rec["buf"]),
+                "detail": "nodes %s" % rec["nodes"][:6], "line": 0, "obs": rec}
+    if prop == "C17":
+        kinds = [n["kind"] for n in rec["nodes"]]
+        return {"prop": "C17", "kind": "traversal", "start": "", "profile": "", "text": "tree of %d nodes: %s" % (len(kinds), " ".join(kinds[:12])),
+                "detail": "roots %s; first run log %s" % (rec["roots"], rec["runs"][0]["log"][:8]), "line": 0, "obs": rec}
+    return {"prop": "C19", "kind": "position-expression", "start": "", "profile": "", "text": "%s pos=%s end=%s" % (rec["kind"], rec["pos"], rec["end"]),
+            "detail": "interpreter %s/%s env %s" % (rec["ipos"], rec["iend"], json.dumps(rec["env"])[:300]), "line": 0, "obs": rec}
+
+
+def generated_sources(chk, wd):
+    """C19, decided next to the model: the checked-in generated files are what the repository's generators produce."""
+    import subprocess
+    bad = []
+    for tool, target in (("gen-ast-pos", "pos.go"), ("gen-ast-walk", "walk_internal.go")):
+        out = os.path.join(wd, target)
+        p = subprocess.run(["go", "run", "./tools/%s/main.go" % tool, "-astfile", "ast/ast.go", "-constfile", "ast/ast_const.go", "-outfile", out],
+                           cwd=common.REPO, env=common.goenv(), text=True, stdout=subprocess.PIPE, stderr=subprocess.STDOUT, timeout=600)
+        if p.returncode != 0:
+            raise Infra("generator %s failed: %s" % (tool, p.stdout[-800:]))
+        same = open(out, "rb").read() == open(os.path.join(common.REPO, "ast", target), "rb").read()
+        chk.notes.setdefault("generated_sources", {})[target] = "identical" if same else "DIFFERENT"
+        if not same:
+            bad.append(target)
+    return bad
 
 
 def split_and_validate(module, pre, wd, tag, chunks=8):
@@ -187,15 +243,19 @@ def confirm(prop, tier, all_findings, wd):
                 f["tape"] = got[lines[f["line"] - 1]].strip()
                 out.append(f)
     if obs_recs:
-        pre = os.path.join(wd, "confirm-obs")
-        with open(pre + ".0.ndjson", "w") as fh:
-            for f in obs_recs[:300]:
-                fh.write(json.dumps(f["obs"]) + "\n")
-        cnt, rejects, _, _ = validate_chunks("ObserveTrace", [], pre, 1, os.path.join(wd, "confirm-obs-tlc"))
-        bad = set(line for (_, line, _) in rejects)
-        for i, f in enumerate(obs_recs[:300], 1):
-            if i in bad:
-                out.append(f)
+        by_mod = {}
+        for f in obs_recs[:300]:
+            by_mod.setdefault(f.get("module") or OBS_MODULE[prop], []).append(f)
+        for module, fs in by_mod.items():
+            pre = os.path.join(wd, "confirm-obs-" + module)
+            with open(pre + ".0.ndjson", "w") as fh:
+                for f in fs:
+                    fh.write(json.dumps(f["obs"]) + "\n")
+            cnt, rejects, _, _ = validate_chunks(module, [], pre, 1, os.path.join(wd, "confirm-obs-tlc-" + module))
+            bad = set(line for (_, line, _) in rejects)
+            for i, f in enumerate(fs, 1):
+                if i in bad:
+                    out.append(f)
     return out
 
 
@@ -210,4 +270,13 @@ def replay_case(case):
         stats, findings, obs = replay(sub, prop, rp.get("tier", "quick"), wd, "replay")
         bad = [f for f in findings if f["prop"] == prop]
         return ("reproduced: %s %s" % (bad[0]["kind"], bad[0]["detail"][:200])) if bad else None
+    if rp.get("generated"):
+        chk = Check(prop, "quick", "model_checking")
+        return ("ast/%s still differs from the generator output" % rp["generated"]) if rp["generated"] in generated_sources(chk, wd) else None
+    if rp.get("obs"):
+        pre = os.path.join(wd, "obs")
+        with open(pre + ".0.ndjson", "w") as fh:
+            fh.write(json.dumps(rp["obs"]) + "\n")
+        cnt, rejects, _, _ = validate_chunks(OBS_MODULE[prop], [], pre, 1, os.path.join(wd, "obs-tlc"))
+        return "recorded observation rejected again (note: a recorded observation, not a fresh run)" if rejects else None
     return None
